@@ -219,7 +219,7 @@ func (e Error) Error() string {
 type NumHash struct {
 	sync.Mutex
 	err      error
-	once     sync.Once
+	started  bool // the background feed (poller or websocket listener) is running
 	maxreads int
 	nreads   int
 	Num      eth.Uint64 `json:"number"`
@@ -231,6 +231,18 @@ func (nh *NumHash) error(err error) {
 	nh.nreads = 0
 	nh.err = err
 	nh.Unlock()
+}
+
+// Reports whether the caller has to start the background feed:
+// true exactly once until the feed reports an error.
+func (nh *NumHash) start() bool {
+	nh.Lock()
+	defer nh.Unlock()
+	if nh.started {
+		return false
+	}
+	nh.started = true
+	return true
 }
 
 func (nh *NumHash) update(n eth.Uint64, h []byte) {
@@ -256,7 +268,7 @@ func (nh *NumHash) get(ctx context.Context, n uint64) (uint64, []byte, bool) {
 			slog.DebugContext(ctx, "rpc connection error", "error", err)
 		}
 		nh.err = nil
-		nh.once = sync.Once{}
+		nh.started = false
 		return 0, nil, false
 	}
 
@@ -371,7 +383,7 @@ func (c *Client) httpPoll(ctx context.Context, url string) {
 // rather than using the cached value,
 // bypassing the caching mechanism.
 func (c *Client) Latest(ctx context.Context, url string, n uint64) (uint64, []byte, error) {
-	c.lcache.once.Do(func() {
+	if c.lcache.start() {
 		switch {
 		case len(c.wsurl) > 0:
 			slog.DebugContext(ctx, "jrpc2 ws listening")
@@ -380,7 +392,7 @@ func (c *Client) Latest(ctx context.Context, url string, n uint64) (uint64, []by
 			slog.DebugContext(ctx, "jrpc2 http polling")
 			go c.httpPoll(context.Background(), url)
 		}
-	})
+	}
 	if n, h, ok := c.lcache.get(ctx, n); ok {
 		return n, h, nil
 	}
